@@ -4,6 +4,7 @@ import (
 	"os"
 	"path/filepath"
 	"testing"
+	"time"
 )
 
 // c50RoundTrip exports one row (v, 'x') with SELECT ... INTO OUTFILE and loads the file back with LOAD DATA using
@@ -46,5 +47,62 @@ func TestC50OutfileEscapesEnclosure(t *testing.T) {
 	t.Logf("file: %q", raw)
 	if src != dst {
 		t.Errorf("ENCLOSED BY '\"': exported %s, reloaded %s", src, dst)
+	}
+}
+
+// C50-O3 loadDataIter.parseFields/word "NULL" read as NULL with escaping enabled: the reader turns the escape sequence \N into
+// the in-band marker "NULL" and then maps every field whose text is NULL to SQL NULL, enclosed or not, escaping or not; the
+// writer emits the string value 'NULL' verbatim, so it comes back as SQL NULL.
+func TestC50StringNULLIsNotReadAsNull(t *testing.T) {
+	for _, opts := range []string{"", `FIELDS TERMINATED BY ',' ENCLOSED BY '"'`} {
+		src, dst, raw := c50RoundTrip(t, opts, "NULL")
+		t.Logf("[%s] file: %q", opts, raw)
+		if src != dst {
+			t.Errorf("[%s]: exported %s, reloaded %s", opts, src, dst)
+		}
+	}
+}
+
+// C50-O3 BaseBuilder.buildInto/escape letters honoured whenever written: with ENCLOSED BY and ESCAPED BY set to the same
+// character the writer still writes NULL as <escape>N, but the reader switches escape-letter processing off in that case
+// (doubling only), so the marker is read as data.
+func TestC50NullMarkerWhenEnclosureEqualsEscape(t *testing.T) {
+	e, ctx := newEngine(t)
+	file := filepath.Join(t.TempDir(), "out.txt")
+	opts := `FIELDS TERMINATED BY ',' ENCLOSED BY '$' ESCAPED BY '$'`
+	mustRun(t, e, ctx, "CREATE TABLE src (a varchar(50), b varchar(50))")
+	mustRun(t, e, ctx, "CREATE TABLE dst (a varchar(50), b varchar(50))")
+	mustRun(t, e, ctx, "INSERT INTO src VALUES (NULL, 'x')")
+	mustRun(t, e, ctx, "SELECT a, b FROM src INTO OUTFILE '"+file+"' "+opts)
+	raw, _ := os.ReadFile(file)
+	t.Logf("file: %q", raw)
+	mustRun(t, e, ctx, "LOAD DATA INFILE '"+file+"' INTO TABLE dst "+opts)
+	src, dst := show(mustRun(t, e, ctx, "SELECT a, b FROM src")), show(mustRun(t, e, ctx, "SELECT a, b FROM dst"))
+	if src != dst {
+		t.Errorf("exported %s, reloaded %s", src, dst)
+	}
+}
+
+// Observation made while demonstrating the C50-O findings; NOT reported by a rule (which values of an option make the
+// reader's splitting degenerate is a value-level question): LINES TERMINATED BY '' is accepted by both statements, the writer
+// concatenates the rows, and LOAD DATA never returns (plan.LoadData.SplitLines finds the empty terminator at offset 0 and never
+// advances; loadDataIter.Next keeps skipping the empty lines).
+func TestC50LoadDataEmptyLineTerminatorTerminates(t *testing.T) {
+	e, ctx := newEngine(t)
+	file := filepath.Join(t.TempDir(), "out.txt")
+	mustRun(t, e, ctx, "CREATE TABLE src (a varchar(50), b varchar(50))")
+	mustRun(t, e, ctx, "CREATE TABLE dst (a varchar(50), b varchar(50))")
+	mustRun(t, e, ctx, "INSERT INTO src VALUES ('a','b'),('c','d')")
+	mustRun(t, e, ctx, "SELECT a, b FROM src INTO OUTFILE '"+file+"' LINES TERMINATED BY ''")
+	done := make(chan error, 1)
+	go func() {
+		_, err := run(t, e, ctx, "LOAD DATA INFILE '"+file+"' INTO TABLE dst LINES TERMINATED BY ''")
+		done <- err
+	}()
+	select {
+	case err := <-done:
+		t.Logf("LOAD DATA returned: %v", err)
+	case <-time.After(5 * time.Second):
+		t.Fatalf("LOAD DATA ... LINES TERMINATED BY '' did not return within 5s (the query never terminates)")
 	}
 }
